@@ -36,7 +36,7 @@ import (
 	ptypes "github.com/ovrclk/akash/x/provider/types"
 )
 
-const c14Rule = "schedule in which a manifest update or the lease-closed signal is delivered while a cluster operation or the hostname-reservation reply is outstanding"
+const c14Rule = "schedule in which a manifest update or the lease-closed signal is delivered while a cluster operation or the hostname-reservation reply is outstanding, or a manifest is delivered while the torn-down manager of the lease is still winding down (hostname release held)"
 
 const c14Wait = 20 * time.Second
 
@@ -315,11 +315,25 @@ func TestVerif_C14(t *testing.T) {
 			<-done
 		}
 		steps := rapid.IntRange(2, 12).Draw(t, "steps")
+		// with hostname releases held, a full life of the lease as a prelude (manifest, hostnames
+		// granted, deploy finishes, lease closed, teardown finishes) leaves the torn-down manager
+		// parked in its hostname release: the random steps that follow then act on that window
+		var forced []int
+		if held && rapid.Bool().Draw(t, "fullLifePrelude") {
+			forced = []int{0, 4, 6, 3, 6}
+			if steps < 8 {
+				steps = 8
+			}
+		}
 		for i := 0; i < steps; i++ {
 			outstanding := pendingHost != nil || pendingOp != nil
 			act := rapid.IntRange(0, 12).Draw(t, "action")
+			if len(forced) > 0 {
+				act, forced = forced[0], forced[1:]
+			}
 			if held && teardownAccepted && !outstanding && !shutdown && rapid.IntRange(0, 2).Draw(t, "manifestWhileWindingDown") > 0 {
 				act = 0 // a manifest for the lease while its torn-down manager is still winding down
+				interesting = true
 			}
 			switch act {
 			case 11, 12: // the hostname service stops / resumes taking releases
